@@ -44,6 +44,7 @@ _KERNELS: Dict[str, tuple] = {
     "Memcpy HtoD (Pinned -> Device)": (MEMORY, "Memcpy HtoD (Pinned -> Device)"),
     "Memcpy DtoD (Device -> Device)": (MEMORY, "Memcpy DtoD (Device -> Device)"),
     "Memset (Device)": (MEMORY, "Memset (Device)"),
+    "Memset (Unknown)": (MEMORY, "Memset (Unknown)"),
     "dma_copy_engine": (MEMORY, "dma_copy_engine"),
     # other (synchronisation records that sit on a real stream)
     "Stream Sync": (OTHER, "Stream Sync"),
@@ -62,6 +63,7 @@ MEMCPY_CLASS: Dict[str, str] = {
     "Memcpy HtoD (Pinned -> Device)": "Memcpy HtoD",
     "Memcpy DtoD (Device -> Device)": "Memcpy DtoD",
     "Memset (Device)": "Memset",
+    "Memset (Unknown)": "Memset",
     "dma_copy_engine": "Memcpy Unknown",
 }
 
